@@ -951,8 +951,33 @@ def mk_bool(op, items):
     return (op, tuple(res))
 
 
+def _seq_valued(x):
+    """certainly a Python sequence (its truth value is len(x) > 0)"""
+    return kind_of(x) == 'seq' or (x[0] == 'idx' and x[2][0] == 'slice') or is_bytes(x)
+
+
+def truth_form(c):
+    """A term in CONDITION position (test of if / while / assert / conditional expression): only its truth value matters.
+    0 < len(x) and len(x) != 0 are the truth of the sequence x; n != 0 is the truth of the number n."""
+    tag = c[0]
+    if tag == 'not':
+        return mk_not(truth_form(c[1]))
+    if tag in ('and', 'or'):
+        return mk_bool(tag, [truth_form(x) for x in c[1]])
+    if tag == 'cmp' and c[1] in ('<', '=='):
+        a, b = c[2], c[3]
+        if a == C(0) and b[0] == 'call' and b[1] == ('b', 'len') and len(b[2]) == 1 and not b[3] and _seq_valued(b[2][0]):
+            return b[2][0] if c[1] == '<' else ('not', b[2][0])
+        if c[1] == '==' and a == C(0) and kind_of(b) == 'num' and is_pyint(b) and b[0] != 'cmp':
+            return ('not', b)
+    if tag == 'call' and c[1] == ('b', 'bool') and len(c[2]) == 1 and not c[3]:
+        return truth_form(c[2][0])
+    return c
+
+
 def canon_cond(c):
     """(condition, flipped): 'not x' -> (x, True); a<=b -> (b<a, True)  so that a test and its negation share one form"""
+    c = truth_form(c)
     if c[0] == 'not':
         c2, f = canon_cond(c[1])
         return c2, not f
@@ -1030,6 +1055,12 @@ REV = ('slice', ('c', None), ('c', None), ('c', -1))
 
 def get_idx(seq, idx):
     tag = seq[0]
+    if tag == 'hoist' and seq[1][0] == 'call':
+        # reading an item of an object made before the loop is reading an item of that object (as for one held in an attribute)
+        return get_idx(seq[1], idx)
+    if idx == REV and tag == 'call' and seq[1] == ('b', 'bytes') and len(seq[2]) == 1 and not seq[3] \
+            and (seq[2][0][0] in ('list', 'comp') or (kind_of(seq[2][0]) == 'seq' and not is_bytes(seq[2][0]))):
+        return ('call', seq[1], (get_idx(seq[2][0], REV),), ())       # bytes(L)[::-1] is bytes(L[::-1]) for a list of byte values
     if idx == REV and tag == 'idx' and seq[2] == REV:
         return seq[1]                      # x[::-1][::-1]
     if idx == REV and tag == 'comp' and seq[1] == 'list' and len(seq[4]) == 1 and not seq[4][0][1]:
@@ -1322,6 +1353,9 @@ class PE:
         self.num_names = frozenset()
         self.no_mark = 0           # > 0 inside lambda / comprehension bodies: their calls run elsewhere / are accounted as a whole
         self.local_writers = {}
+        self.self_class = None     # (module, class) when the function being summarised is a method of a known class
+        self.self_name = None
+        self.local_fdefs = {}      # index of a nested function -> its FunctionDef (calls are written out when it is a pure expression)
         self.cur_fdef = None
         self.fresh_names = set()
         self.bind_count = {}       # name -> number of binding sites in the function being summarised (nested functions excluded)
@@ -1753,6 +1787,7 @@ class PE:
     def ev_Call(self, n, env):
         # mutator methods on places
         if isinstance(n.func, ast.Attribute) and n.func.attr in MUTATORS and self.is_place(n.func.value) \
+                and self._self_call_writes(n.func) is None \
                 and not (isinstance(n.func.value, ast.Name) and n.func.value.id not in self.aliases
                          and self.ev(n.func.value, env)[0] in ('g', 'b')):      # operator.add(..) is not a set being mutated
             args = [self.ev(a, env) for a in n.args]
@@ -1791,7 +1826,14 @@ class PE:
             # a call that may change its receiver / an argument stays in sequence: the place now holds mut(name, old, args),
             # so that what is read or called afterwards is a different object term (see sa/purity.py)
             g_ = res[1]
-            if isinstance(fnode, ast.Attribute) and g_[0] == 'attr' and g_[2] == fnode.attr and self.is_place(fnode.value) \
+            cw_ = self._self_call_writes(fnode)
+            if cw_ is not None:
+                # self.m(..) inside a method of a known class: the class's own definition decides what is written
+                if cw_ and g_[0] == 'attr' and g_[2] == fnode.attr:
+                    cur_ = self.ev(fnode.value, env)
+                    qn_ = '%s:%s.%s' % (self.self_class[0], self.self_class[1], fnode.attr)
+                    self.store(fnode.value, ('mut', qn_, cur_, self._args_sans(cur_, tuple(args) + tuple(kw))), env, True)
+            elif isinstance(fnode, ast.Attribute) and g_[0] == 'attr' and g_[2] == fnode.attr and self.is_place(fnode.value) \
                     and pur.is_writing(fnode.attr) and not self._is_module_name(fnode.value, env):
                 cur_ = self.ev(fnode.value, env)
                 self.store(fnode.value, ('mut', fnode.attr, cur_, self._args_sans(cur_, tuple(args) + tuple(kw))), env, True)
@@ -1816,6 +1858,17 @@ class PE:
                             rest_ = tuple(args[:i_]) + (('recv',),) + tuple(args[i_ + 1:]) + tuple(kw)
                             self.store(n.args[i_], ('mut', 'arg%d:%s' % (i_, name_), cur_, self._args_sans(cur_, rest_)), env, True)
         return res
+
+    def branch_depth_loops(self):
+        return False
+
+    def _self_call_writes(self, fnode):
+        """for `self.m(..)` in a method of a known class: the attributes the class's m may store (set), else None"""
+        if self.purity is None or self.self_class is None or not isinstance(fnode, ast.Attribute) \
+                or not isinstance(fnode.value, ast.Name) or fnode.value.id != self.self_name or fnode.value.id in self.aliases \
+                or self.bind_count.get(fnode.value.id, 0) > 1:
+            return None
+        return self.purity.class_writes(self.self_class[0], self.self_class[1], fnode.attr)
 
     def _args_sans(self, cur, args):
         """the arguments recorded with a writing call, with the written object itself abbreviated (keeps the record linear in
@@ -1909,6 +1962,11 @@ class PE:
         return False
 
     def mutate(self, place, meth, args, env):
+        if meth == 'extend' and len(args) == 1 and args[0][0] in ('list', 'tuple') and 1 <= len(args[0][1]) <= 8 \
+                and not any(x[0] == 'star' for x in args[0][1]):
+            for x in args[0][1]:            # l.extend((a, b)) is l.append(a); l.append(b)
+                self.mutate(place, 'append', [x], env)
+            return NONE
         cur = self.ev(place, env)
         new = None
         res = NONE
@@ -1963,6 +2021,22 @@ class PE:
 
     def call(self, f, args, kw, env, node=None):
         args = tuple(args)
+        if f[0] == 'lfn' and f[1] in self.local_fdefs and not any(a[0] == 'star' for a in args):
+            # a nested function that is a pure expression of its arguments (checked: it shares no changing state with the
+            # enclosing function) is written out at the call, like a module-level helper
+            sub = PE(self.resolve_global, self.global_values, self.unroll, self.opts, self.inline, self.call_hook)
+            sub.lam_depth = self.lam_depth + 10
+            sub.closures = self.closures + [env]
+            sub.purity = self.purity
+            try:
+                sm = sub.run_function(self.local_fdefs[f[1]], args=list(args), kwargs={k[1]: k[2] for k in kw})
+                r = effects_value(sm.effects)
+            except (Unsupported, RecursionError):
+                r = None
+            fa_ = self.local_fdefs[f[1]].args
+            need_ = len(fa_.posonlyargs + fa_.args) - len(fa_.defaults)
+            if r is not None and need_ <= len(args) + len(kw) <= len(fa_.posonlyargs + fa_.args) and not fa_.vararg and not fa_.kwarg:
+                return r
         if kw and f[0] == 'g' and getattr(self, 'sig_of', None) is not None and not any(k[1] == '**' for k in kw) \
                 and not any(a[0] == 'star' for a in args):
             # Poly(ks, size=8) is Poly(ks, 8): keyword arguments that fill the next positional parameters, in order
@@ -1996,6 +2070,10 @@ class PE:
             return ('dict', tuple(sorted(((C(k[1]), k[2]) for k in kw), key=lambda kv: skey(kv[0]))))
         if f[0] == 'b' and f[1] == 'bytes' and len(args) == 1 and not kw and is_bytes(args[0]):
             return args[0]                                    # bytes(b) of a bytes value is b
+        if f[0] == 'g' and getattr(self, 'ext_of', None) is not None and len(args) == 2 and not kw:
+            e_ = self.ext_of(f[1])
+            if e_ is not None and e_[0] == 'operator' and e_[1] in ('xor', 'and_', 'or_', 'add', 'sub', 'mul', 'lshift', 'rshift', 'floordiv', 'mod'):
+                f = ('attr', ('g', 'operator'), e_[1])          # from operator import xor as _xor
         if f[0] == 'attr' and f[1] in (('g', 'operator'), ('b', 'operator')) and len(args) == 2 and not kw \
                 and f[2] in ('xor', 'and_', 'or_', 'add', 'sub', 'mul', 'lshift', 'rshift', 'floordiv', 'mod'):
             op_ = {'xor': '^', 'and_': '&', 'or_': '|', 'add': '+', 'sub': '-', 'mul': '*', 'lshift': '<<', 'rshift': '>>',
@@ -2026,6 +2104,19 @@ class PE:
         if f[0] == 'b' and f[1] == 'len' and len(args) == 1 and not kw and args[0][0] == 'or' and len(args[0][1]) == 2:
             a_, b_ = args[0][1]
             return mk_ite(a_, self.call(f, (a_,), (), env), self.call(f, (b_,), (), env))      # len(a or b)
+        if f[0] == 'b' and f[1] == 'map' and len(args) == 3 and not kw and args[0][0] in ('lam', 'attr', 'g', 'b'):
+            # map(f, A, B) is (f(a, b) for a, b in zip(A, B))
+            ci = canon_iter(('call', ('b', 'zip'), tuple(args[1:]), ()), self.opts)
+            if ci is not None:
+                self.lam_depth += 1
+                d_ = self.lam_depth
+                try:
+                    x_ = ci[1](('bv', d_, 0, 'num'))
+                    elt = self.call(shift_binders(args[0], d_, 1), tuple(x_[1]), (), env) if x_[0] == 'tuple' and len(x_[1]) == 2 else None
+                finally:
+                    self.lam_depth -= 1
+                if elt is not None:
+                    return mk_comp('list', d_, elt, ((('range', C(0), ci[0], C(1)), ()),))
         if f[0] == 'b' and f[1] == 'map' and len(args) == 2 and not kw and args[0][0] in ('lam', 'attr', 'g', 'b'):
             ci = canon_iter(args[1], self.opts)
             if ci is not None or args[1][0] == 'range':
@@ -2067,6 +2158,20 @@ class PE:
                     return from_py(getattr(_math, ext[1])(*[a_[1] for a_ in args]))     # a pure library function of constants
                 except Exception:
                     pass
+        if f[0] in ('g', 'b') and f[1] == 'reduce' and len(args) in (2, 3) and not kw and args[0][0] in ('g', 'attr'):
+            # reduce(operator.xor, S) / reduce(_floordiv, S): the operator function is lambda a, b: a op b
+            nm_ = None
+            if args[0][0] == 'attr' and args[0][1] in (('g', 'operator'), ('b', 'operator')):
+                nm_ = args[0][2]
+            elif args[0][0] == 'g' and getattr(self, 'ext_of', None) is not None:
+                e_ = self.ext_of(args[0][1])
+                nm_ = e_[1] if e_ is not None and e_[0] == 'operator' else None
+            ops_ = {'xor': '^', 'and_': '&', 'or_': '|', 'add': '+', 'sub': '-', 'mul': '*', 'lshift': '<<', 'rshift': '>>', 'floordiv': '//', 'mod': '%'}
+            if nm_ in ops_:
+                self.lam_depth += 1
+                d_ = self.lam_depth
+                self.lam_depth -= 1
+                args = (('lam', 2, d_, mk_bin(ops_[nm_], ('p', d_, 0), ('p', d_, 1), self.opts), ()),) + tuple(args[1:])
         if f[0] in ('g', 'b') and f[1] == 'reduce' and len(args) in (2, 3) and not kw and args[0][0] == 'lam' and args[0][1] == 2:
             r = self.reduce_as_loop(args[0], args[1], args[2] if len(args) == 3 else None)
             if r is not None:
@@ -2358,6 +2463,17 @@ class PE:
             elif len(s.targets) == 1 and isinstance(s.targets[0], ast.Tuple) and isinstance(s.value, ast.Tuple) \
                     and len(s.targets[0].elts) == len(s.value.elts):
                 pairs = [(t_, v_) for t_, v_ in zip(s.targets[0].elts, s.value.elts) if isinstance(t_, ast.Name)]
+            # self.a = x  and x is later updated in place: from here on x names the object held by self.a
+            if len(s.targets) == 1 and isinstance(s.targets[0], ast.Attribute) and isinstance(s.value, ast.Name) \
+                    and s.value.id in self.inplace_updated and s.value.id in env and s.value.id not in self.aliases:
+                tp_ = self._attr_path(s.targets[0])
+                vt = env.get(s.value.id)
+                if tp_ is not None and tp_[0] != s.value.id and tp_[0] not in self.aliases and vt is not None and not is_c(vt) \
+                        and vt[0] not in ('lam', 'g', 'b') and kind_of(vt) != 'num' and not self.branch_depth_loops():
+                    place_ = ast.Attribute(value=s.targets[0].value, attr=s.targets[0].attr, ctx=ast.Load())
+                    ast.copy_location(place_, s.targets[0])
+                    ast.fix_missing_locations(place_)
+                    self.aliases[s.value.id] = (tp_, place_)
             tnames_ = {t_.id for t_, _ in pairs}
             for t_, v_ in pairs:
                 if isinstance(v_, ast.Name):
@@ -2370,6 +2486,20 @@ class PE:
                     self.aliases[t_.id] = self.aliases[v_.id] if v_.id in self.aliases else ((v_.id,), v_)
                     continue
                 p_ = self._attr_path(v_)
+                if p_ is not None and p_[0] in self.aliases and t_.id in self.inplace_updated and p_[0] != t_.id:
+                    # box = S.ival where S is itself a view (S = self.S): a view of self.S.ival
+                    q_, place_ = self.aliases[p_[0]]
+
+                    def rebase(n_):
+                        if isinstance(n_, ast.Name):
+                            return place_
+                        return ast.copy_location(ast.Attribute(value=rebase(n_.value), attr=n_.attr, ctx=ast.Load()), n_)
+                    v2_ = rebase(v_)
+                    ast.fix_missing_locations(v2_)
+                    vt = env.get(t_.id)
+                    if vt is not None and not is_c(vt) and vt[0] not in ('lam', 'g', 'b'):
+                        self.aliases[t_.id] = (tuple(q_) + tuple(p_[1:]), v2_)
+                    continue
                 if p_ is not None and t_.id in self.inplace_updated and p_[0] != t_.id and p_[0] in env and p_[0] not in self.aliases:
                     vt = env.get(t_.id)
                     if vt is not None and not is_c(vt) and vt[0] not in ('lam', 'g', 'b'):
@@ -2395,7 +2525,7 @@ class PE:
                     tgt_viewed = True
                 immut = kind_of(cur) == 'num' or is_c(cur) or is_bytes(cur) or cur[0] == 'tuple' or s.target.id in self.num_names \
                     or (s.target.id in self.fresh_names and not viewed and not tgt_viewed) \
-                    or (op_ != '*' and (kind_of(v) == 'num' or (is_c(v) and not isinstance(v[1], (list, set, dict)))))
+                    or (op_ != '*' and (kind_of(v) == 'num' or (is_c(v) and isinstance(v[1], (str, int, float, bool)))))      # (bytearray += b'..' is in place)
                 if not immut and (viewed or tgt_viewed or not owned_fresh(cur)):
                     effects.append(('do', ('inplace', C(op_), cur, v), ()))
             self.store(s.target, mk_bin(op_, cur, v, self.opts), env)
@@ -2419,7 +2549,7 @@ class PE:
             effects.append(('exit', 'raise', v, self.roots_state(env)))
             return True
         if isinstance(s, ast.Assert):
-            c = self.ev(s.test, env)
+            c = truth_form(self.ev(s.test, env))
             for c1 in (c[1] if c[0] == 'and' else (c,)):
                 if truth(c1) is not True:
                     effects.append(('assert', c1))
@@ -2873,7 +3003,7 @@ class PE:
                 self.bind_pattern_syms(s.target, env2, itsym)
             cond = None
         else:
-            cond = self.ev(s.test, env2)
+            cond = truth_form(self.ev(s.test, env2))
         body_eff = []
         save = (self.nloops, self.ntry, len(self.sm.funcs), list(self.sm.undefined))
         env_first = dict(env2)
@@ -3434,8 +3564,63 @@ class PE:
         self.sm.funcs.append(sm)
         self.sm.undefined.extend(sm.undefined)
         env[s.name] = ('lfn', k)
+        self.local_fdefs[k] = s
         effects.append(('def', k, sm.term()))
         return False
+
+    def _read_first_outside(self, trystmt, inside):
+        """names whose value as left by the try body may be READ outside it: in some region (each handler; else + finally + the
+        rest of the function) the first occurrence in evaluation order is a load"""
+        def occ(n):
+            """(name, is_load) in evaluation order"""
+            if isinstance(n, ast.Name):
+                yield (n.id, isinstance(n.ctx, ast.Load))
+                return
+            if isinstance(n, ast.Assign):
+                yield from occ(n.value)
+                for t in n.targets:
+                    yield from occ(t)
+                return
+            if isinstance(n, ast.AugAssign):
+                if isinstance(n.target, ast.Name):
+                    yield (n.target.id, True)
+                yield from occ(n.value)
+                yield from occ(n.target)
+                return
+            if isinstance(n, (ast.For, ast.comprehension)):
+                yield from occ(n.iter)
+                yield from occ(n.target)
+                for c in (n.body + n.orelse if isinstance(n, ast.For) else n.ifs):
+                    yield from occ(c)
+                return
+            if isinstance(n, (ast.ListComp, ast.SetComp, ast.GeneratorExp, ast.DictComp)):
+                for g in n.generators:
+                    yield from occ(g)
+                for e in ([n.key, n.value] if isinstance(n, ast.DictComp) else [n.elt]):
+                    yield from occ(e)
+                return
+            for c in ast.iter_child_nodes(n):
+                yield from occ(c)
+        regions = [list(h.body) for h in trystmt.handlers]
+        rest = list(trystmt.orelse) + list(trystmt.finalbody)
+        # everything of the function that follows the try statement (approximated by source position)
+        end = (getattr(trystmt, 'end_lineno', 0), getattr(trystmt, 'end_col_offset', 0))
+        later = [x for x in ast.walk(self.cur_fdef) if isinstance(x, ast.stmt) and id(x) not in inside
+                 and (getattr(x, 'lineno', 0), getattr(x, 'col_offset', 0)) >= end]
+        # a loop around the try statement brings control back to code before it: be conservative there
+        looped = any(isinstance(x, (ast.For, ast.While)) and any(y is trystmt for y in ast.walk(x)) for x in ast.walk(self.cur_fdef))
+        if looped:
+            return {x.id for x in ast.walk(self.cur_fdef) if isinstance(x, ast.Name) and isinstance(x.ctx, ast.Load) and id(x) not in inside}
+        top_later = [x for x in later if not any(x is not y and any(z is x for z in ast.walk(y)) for y in later)]
+        regions.append(rest + top_later)
+        out = set()
+        for reg in regions:
+            first = {}
+            for st in reg:
+                for name, is_load in occ(st):
+                    first.setdefault(name, is_load)
+            out |= {n for n, ld in first.items() if ld}
+        return out
 
     def exec_try(self, s, env, effects):
         self.ntry += 1
@@ -3448,8 +3633,7 @@ class PE:
         trace = []
         tb = False
         inside_ = {id(x_) for st_ in s.body for x_ in ast.walk(st_)}
-        seen_outside_ = {x_.id for x_ in ast.walk(self.cur_fdef) if isinstance(x_, ast.Name) and id(x_) not in inside_} \
-            if self.cur_fdef is not None else None
+        seen_outside_ = self._read_first_outside(s, inside_) if self.cur_fdef is not None else None
         for i_, st_ in enumerate(s.body):
             before_ = dict(eb)
             nfb_ = len(fb)
@@ -3568,6 +3752,7 @@ class PE:
         self.inplace_updated_objs = set()
         self.obj_writes = {}
         self.cur_fdef = fdef
+        self.self_name = names[0] if (names and self.self_class is not None) else None
 
         def count_(n_, top=True):
             for c_ in ast.iter_child_nodes(n_):
@@ -3619,6 +3804,18 @@ class PE:
                 break
             effects[:] = list(substitute(tuple(effects), fa_, self.opts))
         effects[:] = self.tidy(effects)
+        # a nested function whose every use was a call written out above is no longer mentioned: its definition has no effect
+        if any(x[0] == 'def' for e in effects for x in walk(e)):
+            used = {x[1] for e in effects for x in walk(e) if x[0] == 'lfn'}
+
+            def strip(t):
+                if type(t) is not tuple or not t:
+                    return t
+                if t and all(type(x) is tuple and x and type(x[0]) is str for x in t) and any(x[0] == 'def' for x in t):
+                    t = tuple(x for x in t if not (x[0] == 'def' and len(x) == 3 and x[1] not in used))
+                return tuple(strip(x) for x in t)
+            effects[:] = list(strip(tuple(effects)))
+            effects[:] = self.tidy(effects)
         self.sm.env = env
         self.sm.nloops = self.nloops
         return self.sm
